@@ -611,6 +611,8 @@ class Translator:
     # ---- construction ------------------------------------------------------------------
     def e_CXXConstructExpr(self, n, i):
         ct = self.ty(n)
+        if ct == 'c_opaque':
+            return '((c_opaque)0)'
         kind = self.tm.kinds.get(ct)
         args = [x for x in i if x.get('kind') != 'CXXDefaultArgExpr']
         ctor_t = n.get('ctorType', {}).get('qualType', '')
@@ -760,10 +762,47 @@ class Translator:
             return self.call_extracted(cn, self.full_decl(ref), ptr, i[1:])
         return self.lib_call(n, me.get('name'), self.full_decl(ref), (obj, o, ptr), i[1:])
 
+    def inline_lambda(self, n, call, args):
+        params = [p for p in call.get('inner', []) if p.get('kind') == 'ParmVarDecl']
+        body = [b for b in call.get('inner', []) if b.get('kind') == 'CompoundStmt']
+        if not body or len(params) != len(args):
+            self.abort(n, 'lambda call shape')
+        stmts = [x for x in body[0].get('inner', []) if x]
+        if not stmts or stmts[-1].get('kind') != 'ReturnStmt' or any(
+                y.get('kind') == 'ReturnStmt' for st in stmts[:-1] for y in walk(st)):
+            self.abort(n, 'lambda body is not straight-line code ending in a single return')
+        self.tmpn = getattr(self, 'tmpn', 0) + 1
+        out = []
+        saved_locals = dict(self.locals)
+        for p, a in zip(params, args):
+            nm = self.fresh(p['name'] + '_l%d' % self.tmpn)
+            if self.by_pointer(p['type']['qualType']):
+                self.abort(n, 'lambda parameter by reference')
+            out.append('%s %s = %s;' % (self.tm.tname(p['type']).rstrip(' *') if p['type']['qualType'].rstrip().endswith('&') else self.ty(p), nm, self.e(a)))
+            self.locals[p['id']] = nm
+        for st in stmts[:-1]:
+            if st.get('kind') != 'DeclStmt':
+                self.abort(st, 'statement in inlined lambda')
+            for v in st.get('inner', []):
+                init = [x for x in v.get('inner', []) if x and is_expr(x)]
+                if v.get('kind') != 'VarDecl' or not init or v['type']['qualType'].rstrip().endswith('&'):
+                    self.abort(v, 'declaration in inlined lambda')
+                nm = self.fresh(v['name'] + '_l%d' % self.tmpn)
+                self.locals[v['id']] = nm
+                out.append('%s %s = %s;' % (self.ty(v), nm, self.e(init[-1])))
+        ret = self.e([x for x in stmts[-1].get('inner', []) if x][0])
+        return '({ %s %s; })' % (' '.join(out), ret)
+
     def e_CXXOperatorCallExpr(self, n, i):
         ref, _ = self.callee_decl(i[0])
         name = ref.get('name', '')
         args = i[1:]
+        if name == 'operator()' and args:
+            a0 = args[0]
+            while a0.get('kind') in ('ImplicitCastExpr', 'ParenExpr') and a0.get('inner'):
+                a0 = a0['inner'][0]
+            if a0.get('kind') == 'DeclRefExpr' and a0['referencedDecl']['id'] in self.lambdas:
+                return self.inline_lambda(n, self.lambdas[a0['referencedDecl']['id']], args[1:])
         cn = self.fn_cname(ref)
         d = self.full_decl(ref)
         if cn:
@@ -829,7 +868,8 @@ class Translator:
             fam, _ = self.obj_family(args[0])
             if name == 'operator[]':
                 if fam in ('std::array', 'array'):
-                    return '%sa[%s]' % (self._arrow(A(0)), A(1))
+                    kd = self.tm.kinds.get(self.tm.tname(args[0]['type']).rstrip(' *').rstrip())
+                    return '%sa[ARR_IDX(%s, %d)]' % (self._arrow(A(0)), A(1), kd[2] if kd else 0)
                 if fam in ('std::vector', 'vector', 'std::basic_string', 'std::basic_string_view'):
                     return 'VEC_AT(%s, %s)' % (A(0), A(1))
             if name == 'operator=' :
@@ -1010,7 +1050,8 @@ class Translator:
         for x in walk(body):
             if x.get('kind') == 'VarDecl':
                 t = x['type'].get('desugaredQualType') or x['type']['qualType']
-                if strip_cv(t).startswith(('std::basic_string<', 'std::string', 'std::basic_ostringstream', 'std::ostringstream')):
+                if strip_cv(t).startswith(('std::basic_string<', 'std::string', 'std::basic_ostringstream', 'std::ostringstream')) \
+                        or strip_cv(t.replace('const ', '')) in ('char *', 'char*'):
                     cands[x['id']] = x
         uses = {i: [] for i in cands}
         for x in walk(body):
@@ -1169,7 +1210,32 @@ class Translator:
                 continue
             self.var_decl(v)
 
+    def lambda_of(self, x):
+        while x is not None and x.get('kind') in ('ExprWithCleanups', 'CXXConstructExpr', 'MaterializeTemporaryExpr',
+                                                   'ImplicitCastExpr', 'CXXBindTemporaryExpr') and x.get('inner'):
+            ch = [y for y in x['inner'] if y]
+            if len(ch) != 1:
+                return None
+            x = ch[0]
+        return x if x is not None and x.get('kind') == 'LambdaExpr' else None
+
     def var_decl(self, v):
+        init0 = [x for x in v.get('inner', []) if x and is_expr(x)]
+        lam = self.lambda_of(init0[-1]) if init0 else None
+        if lam is not None:
+            # a local lambda: inlined at its call sites (captures by reference are the enclosing variables themselves)
+            call = None
+            for y in walk(lam):
+                if y.get('kind') == 'CXXMethodDecl' and y.get('name') == 'operator()':
+                    call = y
+                    break
+            if call is None:
+                self.abort(v, 'lambda without call operator')
+            for cap in lam.get('inner', []):
+                pass
+            self.lambdas[v['id']] = call
+            self.cur.dropped.append(('lambda %s inlined at its call sites' % v['name'], self._line(v)))
+            return
         qt = v['type']['qualType']
         name = self.fresh(v['name'])
         init = [x for x in v.get('inner', []) if x and is_expr(x)]
@@ -1602,6 +1668,7 @@ class Translator:
         self.exported = {}
         self.cur_body = d
         self.builder_ids = set()
+        self.lambdas = {}
         rt = d['type']['qualType']
         p = rt.find('(')
         rts = rt[:p].strip()
@@ -1753,6 +1820,7 @@ class Translator:
         self.exported = {}
         self.cur_body = d
         self.builder_ids = set()
+        self.lambdas = {}
         self.cur_record = None
         self.ret_is_ref = False
         f.ret = 'void'
